@@ -251,6 +251,8 @@ def excel_request(c):
 
 
 def check(run):
+    import genlib
+    genlib.validate_writer(run, "gulp", n=run.n(12, 120))
     run.rule = ("tracer models: GULP (1-4 potentials, nr 2..40, dyadic cutoffs; GULP_PairTabulation, writePotentials('GULP'), potable GULP via Configuration and entry point); "
                 "ADP (EAM models with random declared/reversed/missing dipole and quadrupole pairs; class, potable eam_adp); funcfl (writeFuncFL, nr 2..23, nrho 2..17; the effective-charge "
                 "column is squared and converted back x 27.2 x 0.529 / r and must return the pair potential); Excel pair/EAM/FS workbooks read back with openpyxl (class, potable); "
